@@ -296,6 +296,32 @@ func runPatterns(r *core.Run) {
 			out2 := r.Do("C05.match " + pt + " " + stmtToken(raw2))
 			r.Check(out2 == out, "spelling-variance", "pattern `"+pat+"`: `"+raw+"` => "+out+" but `"+raw2+"` => "+out2)
 		}
+		// near miss: one literal of the statement changed. A pattern that generalises that literal (or something
+		// around it) still matches; one that spells it out usually does not (correspondence only for that direction).
+		if pos, restore := mutateLiteral(s, rnd); pos >= 0 {
+			mraw := renderStmt(s, nil, plainStyle, rnd)
+			mt := stmtToken(mraw)
+			restore()
+			if !strings.HasSuffix(mt, "/!") {
+				for k := 0; k < 3; k++ {
+					sigma := randomSigma(rnd, s, 3)
+					if k == 0 {
+						sigma[pos] = true
+					}
+					pat := renderStmt(s, sigma, plainStyle, rnd)
+					pt := patternToken(pat)
+					if strings.HasSuffix(pt, "/!") {
+						continue
+					}
+					r.Begin("near:"+pat+"|"+mraw, true, "pattern-near-miss")
+					res := r.Do("C05.match " + pt + " " + mt)
+					r.Tag("near:" + res)
+					if sigma[pos] {
+						r.Check(res == "true", "pattern-generalised-mismatch", "pattern `"+pat+"` generalises the literal in which `"+mraw+"` differs from its source, but => "+res)
+					}
+				}
+			}
+		}
 		// an unrelated statement against a pattern of this one (mostly false; correspondence only)
 		o := genStatement(rnd)
 		oraw := renderStmt(o, nil, plainStyle, rnd)
@@ -509,8 +535,34 @@ func runSessions(r *core.Run) {
 				queue = append(queue, texts[j])
 				r.Check(res == "F="+hexList(queue), "session-misaligned", fmt.Sprintf("event %d: allowed statement `%s` => %s, want forwarded with queue %s", j, texts[j], res, hexList(queue)))
 			} else {
-				r.Check(res == "E="+hexList(queue), "denied-forwarded", fmt.Sprintf("event %d: denied statement `%s` => %s, want error to the client, nothing forwarded, queue %s", j, texts[j], res, hexList(queue)))
+				if r.Check(strings.HasPrefix(res, "E="), "denied-forwarded", fmt.Sprintf("event %d: denied statement `%s` => %s, want error + ready to the client and nothing forwarded", j, texts[j], res)) {
+					r.Check(res == "E="+hexList(queue), "session-misaligned", fmt.Sprintf("event %d: denied statement `%s` left the pending queue as %s, want %s", j, texts[j], res, hexList(queue)))
+				}
 			}
+		}
+		// the same statements through the real MySQL proxy (COM_QUERY / COM_STMT_PREPARE)
+		{
+			var mev []string
+			var want []string
+			for j, ev := range evs {
+				if ev == "c" {
+					continue
+				}
+				kind := "q:"
+				if (i+j)%3 == 0 {
+					kind = "s:"
+				}
+				mev = append(mev, kind+ev[2:])
+				if r.Impl("C05.handle "+ct+" "+ev[2:]) == "allow" {
+					want = append(want, "F")
+				} else {
+					want = append(want, "E")
+				}
+			}
+			ml := "C05.mysession " + ct + " " + fmt.Sprint(len(mev)) + " " + strings.Join(mev, " ")
+			r.Begin("mysession:"+ml, true, "session-mysql", fmt.Sprintf("events:%d", len(mev)))
+			mout := r.Do(ml)
+			r.Check(mout == strings.TrimSpace("ok "+strings.Join(want, " ")), "denied-forwarded", "MySQL session: got "+mout+", want ok "+strings.Join(want, " "))
 		}
 		// the same statements as Parse messages (extended protocol): a denied one is answered with an error and not forwarded
 		if i%4 == 0 {
